@@ -435,12 +435,46 @@ func runPhase(c *mon.Case) {
 	// test again - which must come out as it did the first time
 	if !hasErr && !c.Failed() && c.R.Chance(0.3) {
 		ph := pc.phaser(cpusB)
+		stuck := ""
 		runOn := func(sq align.SeqBag) ([]res, error) {
+			if stuck != "" {
+				return nil, nil
+			}
 			ch, err := ph.Phase(orfs, sq)
 			if err != nil {
 				return nil, err
 			}
-			return drain(ch), nil
+			// the set in between makes Phase report an error: read with the logical deadlock probe (a stream that is
+			// never closed on an error path must not cost the wall-clock watchdog)
+			var out []res
+			for {
+				tm := time.NewTimer(300 * time.Millisecond)
+				select {
+				case x, ok := <-ch:
+					tm.Stop()
+					if !ok {
+						return out, nil
+					}
+					out = append(out, flatten(x))
+					continue
+				case <-tm.C:
+				}
+				buf := make([]byte, 1<<20)
+				dump := string(buf[:runtime.Stack(buf, true)])
+				if st, why := classifyStuck(dump); st {
+					select {
+					case x, ok := <-ch:
+						if !ok {
+							return out, nil
+						}
+						out = append(out, flatten(x))
+						continue
+					default:
+					}
+					stuck = why + "\n" + head(dump, 2500)
+					return out, nil
+				}
+			}
 		}
 		r1, e1 := runOn(seqs)
 		bad := mkBag([]string{"short", pc.Seqs[0].Name}, []string{"ATGA", pc.Seqs[0].Seq})
@@ -466,6 +500,8 @@ func runPhase(c *mon.Case) {
 			anyErr = anyErr || x.Err != ""
 		}
 		switch {
+		case stuck != "":
+			c.Failf("phaser-reuse:stream-never-closed", "one phaser object, cpus=%d, translate=%v, set / %s / set again: %s", cpusB, pc.Translate, between, stuck)
 		case anyErr:
 			c.Count("phaser-reuse:run-with-reported-error")
 		case strings.Join(k1, "\n") != strings.Join(kb, "\n") || strings.Join(k3, "\n") != strings.Join(kb, "\n"):
